@@ -393,7 +393,7 @@ def shards(tier):
     for form in (0, 1):
         for h1 in range(5):
             out.append(dict(name='D_f%d_h%d' % (form, h1), module='harness.c09', fn='whereprog', consts=dict(form=form, h1=h1),
-                            budget_s=45 if q else 300))
+                            budget_s=25 if q else 300))
     # (F) a .rx.watch callback that assigns another input
     for route in range(5):
         out.append(dict(name='F_r%d' % route, module='harness.c09', fn='cbprog', consts=dict(route=route), budget_s=45 if q else 300))
@@ -401,7 +401,7 @@ def shards(tier):
     for src in (0, 1):
         for v1 in range(len(CONT)):
             out.append(dict(name='E_s%d_v%d' % (src, v1), module='harness.c09', fn='contprog', consts=dict(src=src, h1=0, v1=v1),
-                            budget_s=45 if q else 300))
+                            budget_s=20 if q else 300))
     return out
 
 
